@@ -92,7 +92,9 @@ def gen_pipeline(rng, allow_ctf=True, allow_dists=True, allow_prism=False, small
         d["aberrations"] = ab
         if allow_dists and rng.random() < 0.25:
             d["defocus_dist"] = {"lo": float(rng.uniform(-100, 0)), "hi": float(rng.uniform(0, 100)),
-                                 "n": int(rng.integers(2, 4)), "mean": bool(rng.random() < 0.3)}
+                                 "n": int(rng.integers(2, 6)), "mean": bool(rng.random() < 0.3),
+                                 "form": str(rng.choice(["uniform", "uniform", "gaussian", "weighted"])),
+                                 "wseed": int(rng.integers(0, 10 ** 6))}
         if allow_dists and rng.random() < 0.2:
             d["tilt_dist"] = {"lo": float(rng.uniform(-10, 0)), "hi": float(rng.uniform(0, 10)),
                               "n": int(rng.integers(2, 4)), "axis": str(rng.choice(["x", "y"]))}
@@ -113,8 +115,11 @@ def gen_pipeline(rng, allow_ctf=True, allow_dists=True, allow_prism=False, small
         if allow_ctf and rng.random() < 0.5:
             ctf = {"defocus": float(rng.uniform(-300, 300)), "Cs": float(rng.uniform(-1e5, 1e5)),
                    "semiangle": float(rng.uniform(10, 40)), "focal_spread": float(rng.choice([0.0, rng.uniform(0, 50)]))}
-            if allow_dists and rng.random() < 0.5:
-                ctf["defocus_dist"] = {"lo": -100.0, "hi": 100.0, "n": int(rng.integers(2, 4))}
+            if allow_dists and rng.random() < 0.6:
+                # uniform (unit weights), gaussian (quadrature weights, optionally averaged) or user-weighted values
+                ctf["defocus_dist"] = {"lo": -100.0, "hi": 100.0, "n": int(rng.integers(2, 8)),
+                                       "form": str(rng.choice(["uniform", "gaussian", "gaussian", "weighted"])),
+                                       "mean": bool(rng.random() < 0.3), "wseed": int(rng.integers(0, 10 ** 6))}
             d["ctf"] = ctf
             d["detectors"] = [{"type": "waves"}]
     return d
@@ -220,6 +225,21 @@ def _scan(d, potential):
                           gpts=tuple(s["gpts"]), endpoint=s["endpoint"])
 
 
+def make_dist(dd, center=0.0):
+    """uniform / gaussian / user-weighted distribution from its JSON description."""
+    import abtem
+    form = dd.get("form", "uniform")
+    lo, hi, n = center + dd["lo"], center + dd["hi"], dd["n"]
+    mean = dd.get("mean", False)
+    if form == "gaussian":
+        return abtem.distributions.gaussian(standard_deviation=(hi - lo) / 4.0, num_samples=n, center=0.5 * (lo + hi),
+                                            ensemble_mean=mean)
+    if form == "weighted":
+        r = np.random.default_rng(dd.get("wseed", 0))
+        return abtem.distributions.from_values(np.linspace(lo, hi, n), weights=r.uniform(0.2, 1.0, n), ensemble_mean=mean)
+    return abtem.distributions.uniform(lo, hi, n, ensemble_mean=mean)
+
+
 def run(d, lazy, max_batch="auto"):
     """Build and run the pipeline.  Returns the abTEM result (lazy objects not yet computed)."""
     import abtem
@@ -227,8 +247,7 @@ def run(d, lazy, max_batch="auto"):
     if d["builder"] == "probe":
         ab = dict(d.get("aberrations", {}))
         if "defocus_dist" in d:
-            dd = d["defocus_dist"]
-            ab["defocus"] = abtem.distributions.uniform(dd["lo"], dd["hi"], dd["n"], ensemble_mean=dd.get("mean", False))
+            ab["defocus"] = make_dist(d["defocus_dist"])
         if "tilt_dist" in d:
             td = d["tilt_dist"]
             dist = abtem.distributions.uniform(td["lo"], td["hi"], td["n"])
@@ -263,9 +282,9 @@ def run(d, lazy, max_batch="auto"):
         c = d["ctf"]
         defocus = c["defocus"]
         if "defocus_dist" in c:
-            dd = c["defocus_dist"]
-            defocus = abtem.distributions.uniform(c["defocus"] + dd["lo"], c["defocus"] + dd["hi"], dd["n"])
-        out = out.apply_ctf(defocus=defocus, Cs=c["Cs"], semiangle_cutoff=c["semiangle"], focal_spread=c["focal_spread"])
+            defocus = make_dist(c["defocus_dist"], center=c["defocus"])
+        out = out.apply_ctf(defocus=defocus, Cs=c["Cs"], semiangle_cutoff=c["semiangle"], focal_spread=c["focal_spread"],
+                            max_batch=max_batch)
         out = out.intensity()
     return out
 
